@@ -219,7 +219,7 @@ theorem matchV_sound (mt : Meta) : ∀ (p g : V) (d d' : Data), matchV mt p g d 
               have ht'' := beq_iff_eq.1 ht'
               subst ht''
               obtain ⟨m, hi⟩ := matchVs_sound mt fs gs d d' h
-              exact ⟨m, fun σ hσ => Inst.ptr _ id id' fs gs (hi σ hσ)⟩
+              exact ⟨m, fun σ hσ => Inst.ptr _ id id' fs gs (fun _ => by assumption) (by simp [forDotsKeyOf]) (hi σ hσ)⟩
             · cases h
         · split at h
           · rename_i k hk
@@ -239,8 +239,10 @@ theorem matchV_sound (mt : Meta) : ∀ (p g : V) (d d' : Data), matchV mt p g d 
             · rename_i ht'
               have ht'' := beq_iff_eq.1 ht'
               subst ht''
+              have hnid : ¬ (t == "ast.Ident") = true := by assumption
+              have hfd : forDotsKeyOf t fs = none := by assumption
               obtain ⟨m, hi⟩ := matchVs_sound mt fs gs d d' h
-              exact ⟨m, fun σ hσ => Inst.ptr _ id id' fs gs (hi σ hσ)⟩
+              exact ⟨m, fun σ hσ => Inst.ptr _ id id' fs gs (fun he => absurd he (by simpa using hnid)) hfd (hi σ hσ)⟩
             · cases h
 theorem matchVs_sound (mt : Meta) : ∀ (ps gs : List V) (d d' : Data), matchVs mt ps gs d = some d' →
     Mono d d' ∧ ∀ σ, Ext d' σ → InstList mt σ ps gs
